@@ -85,9 +85,27 @@ func genUpload(t *rapid.T, withGaps bool) upScript {
 	s.TerminalID = genIDBytes(t, "tid", ref.DialectIDLen[s.Dialect])
 	s.AlarmID = genIDBytes(t, "aid", 32)
 	nf := rapid.IntRange(1, 4).Draw(t, "files")
+	manyFiles := rapid.IntRange(0, 9).Draw(t, "many_files") == 0
+	if manyFiles {
+		// an announcement near the 1023-byte body limit whose names are delimiter and escape bytes: on the wire the
+		// 0x1210 frame is almost twice as long as its payload
+		nf = rapid.IntRange(12, 15).Draw(t, "files_many")
+	}
 	used := map[string]bool{}
 	var perFile [][]chunkRef
 	for i := 0; i < nf; i++ {
+		if manyFiles {
+			n := rapid.IntRange(40, 50).Draw(t, "mf_len")
+			name := make([]byte, n)
+			for k := range name {
+				name[k] = rapid.SampledFrom([]byte{0x7e, 0x7d, 0x7e, 0x7d, 0x41}).Draw(t, "mf_c")
+			}
+			name[0], name[n-1] = byte(0x41+i), 0x7e
+			f := upFile{Name: name, Seed: byte(i), Size: rapid.IntRange(1, 3).Draw(t, "mf_size")}
+			s.Files = append(s.Files, f)
+			perFile = append(perFile, []chunkRef{{i, 0, f.Size}})
+			continue
+		}
 		maxName := 50
 		if s.Dialect == 2 && i == 0 && rapid.IntRange(0, 2).Draw(t, "long_name") == 0 {
 			maxName = 255 // the HLJ chunk header carries a length-prefixed name (the others a fixed 50-byte field)
@@ -492,6 +510,7 @@ func judgeUpload(s upScript, r upResult, mode string) (labels []string, nt bool,
 	lab(len(s.Files) >= 2, "files>=2")
 	lab(reannounced, "announced_twice")
 	lab(manyRanges, "ranges>=32")
+	lab(len(s.Files) >= 12, "announcement_near_the_body_limit")
 	lab(len(s.Files) > 0 && len(s.Files[0].Name) > 200, "name_longer_than_200_bytes")
 	nChunks := 0
 	for _, it := range s.Items {
